@@ -17,6 +17,22 @@ BUILDS = {
     },
 }
 
+# sanitizer builds of the same harness (nightly toolchain; ThreadSanitizer needs an instrumented std => -Zbuild-std)
+BUILDS["tsan"] = {
+    "cmd": ["cargo", "+nightly", "build", "--release", "--offline", "-Zbuild-std", "--target", "x86_64-unknown-linux-gnu",
+            "--target-dir", "/verif/target/tsan"],
+    "env": {"RUSTFLAGS": "-Zsanitizer=thread"},
+    "bin": "/verif/target/tsan/x86_64-unknown-linux-gnu/release/harness",
+    "sanitizer": "tsan",
+}
+BUILDS["asan"] = {
+    "cmd": ["cargo", "+nightly", "build", "--release", "--offline", "--target", "x86_64-unknown-linux-gnu", "--features", "asan",
+            "--target-dir", "/verif/target/asan"],
+    "env": {"RUSTFLAGS": "-Zsanitizer=address -Cforce-frame-pointers=yes"},
+    "bin": "/verif/target/asan/x86_64-unknown-linux-gnu/release/harness",
+    "sanitizer": "asan",
+}
+
 HOOK_COMMITS = ["9bb871a", "5fa190b", "b49a9e6"]
 FIX_COMMITS = ["1a9feb3", "a54e157", "e8eadf0", "4275899", "412168a", "4a034f9", "750341c", "67a090c", "d38134c", "59353e0"]
 
@@ -463,3 +479,33 @@ _EXTRA2 = {
 }
 for _k, _t in _EXTRA2.items():
     PROPS[_k]["level_note"] = (PROPS[_k].get("level_note", "") + " " + _t).strip()
+
+# ---- E-S: sanitizer runs (ThreadSanitizer / AddressSanitizer + LeakSanitizer builds of the same harness).
+# tsan: the quiet `san` scenarios (no shared log; plain-memory canaries) and a slice of the property's own E-T scenarios.
+# asan: a slice of the property's single-threaded engines (all of ractor's and its dependencies' code on those paths,
+#       incl. prost/bytes decoding for C17-C20) and the `san` scenarios with LeakSanitizer checks at quiescent points.
+_SAN_FAMILY = {"C01": "actor", "C02": "actor", "C03": "actor", "C04": "actor", "C07": "actor", "C09": "actor",
+               "C05": "tree+actor", "C06": "tree+actor", "C08": "tree+actor", "C10": "tables", "C11": "tables", "C12": "timers",
+               "C13": "factory", "C14": "factory", "C15": "factory", "C16": "ports"}
+for _k, _cfg in PROPS.items():
+    _base = [r for r in _cfg["runs"] if r.get("build", "main") == "main"]
+    _new = []
+    if _k in _SAN_FAMILY:
+        _new.append({"engine": "san", "build": "tsan", "quick": 320, "thorough": 48000, "timeout_s": 7200,
+                     "what": f"E-S: quiet '{_SAN_FAMILY[_k]}' stress scenarios under ThreadSanitizer (plain-memory canaries in every callback, payload and reply; no shared log that could order the threads)"})
+        _new.append({"engine": "san", "build": "asan", "quick": 320, "thorough": 48000, "timeout_s": 7200,
+                     "what": f"E-S: the same '{_SAN_FAMILY[_k]}' scenarios under AddressSanitizer, LeakSanitizer asked at quiescent points and at exit"})
+    for r in _base:
+        if r["engine"] == "th":
+            _new.append({"engine": "th", "build": "tsan", "quick": max(96, min(800, r["quick"] // 16)), "thorough": max(96, r["thorough"] // 16),
+                         "timeout_s": 7200, "what": "E-S: a slice of this property's E-T scenarios (with their oracles) under ThreadSanitizer"})
+        elif r["engine"] not in ("miri", "fsm", "elect"):
+            _new.append({"engine": r["engine"], "build": "asan", "quick": max(96, min(1600, r["quick"] // 10)), "thorough": max(96, r["thorough"] // 16),
+                         "timeout_s": 7200, "what": f"E-S: a slice of this property's '{r['engine']}' scenarios (with their oracles) under AddressSanitizer + LeakSanitizer"})
+    _cfg["runs"].extend(_new)
+    _cfg["level_note"] += (" Sanitizer runs (E-S): the harness is also built with ThreadSanitizer (instrumented std) and with AddressSanitizer+LeakSanitizer; "
+                           "each sanitizer build first has to report a deliberate race / use-after-free / leak (self-test), then runs the slices listed in the evidence; "
+                           "any sanitizer report is a violation. ractor itself has no unsafe code except one `unsafe impl Sync`, so these runs watch its dependencies' unsafe code "
+                           "(tokio, dashmap, bytes, prost) as driven by ractor, and the harness's happens-before canaries.")
+    if "sanitizers" not in _cfg["technique"]:
+        _cfg["technique"] += "; plus compiler sanitizers (ThreadSanitizer, AddressSanitizer/LeakSanitizer) over slices of the same workloads and over quiet canary workloads"
